@@ -3,6 +3,7 @@ package yqlib
 import (
 	"container/list"
 	"fmt"
+	"math"
 	"sort"
 	"strconv"
 	"strings"
@@ -61,6 +62,25 @@ func sortByOperator(d *dataTreeNavigator, context Context, expressionNode *Expre
 		results.PushBack(sortedList)
 	}
 	return context.ChildContext(results), nil
+}
+
+// sortableFloat reads a !!int or !!float scalar as a float64: integers in any
+// yaml spelling (hex, octal, underscores), and the yaml spellings of infinity and NaN.
+func sortableFloat(node *CandidateNode, tag string) (float64, error) {
+	if tag == "!!int" {
+		if _, num, err := parseInt64(node.Value); err == nil {
+			return float64(num), nil
+		}
+	}
+	switch strings.ToLower(node.Value) {
+	case ".inf", "+.inf":
+		return math.Inf(1), nil
+	case "-.inf":
+		return math.Inf(-1), nil
+	case ".nan":
+		return math.NaN(), nil
+	}
+	return strconv.ParseFloat(node.Value, 64)
 }
 
 type sortableNode struct {
@@ -156,29 +176,24 @@ func (a sortableNodeArray) compare(lhs *CandidateNode, rhs *CandidateNode, dateT
 		}
 
 		return 1
-	} else if lhsTag == "!!int" && rhsTag == "!!int" {
-		_, lhsNum, err := parseInt64(lhs.Value)
-		if err != nil {
-			panic(err)
-		}
-		_, rhsNum, err := parseInt64(rhs.Value)
-		if err != nil {
-			panic(err)
-		}
-		if lhsNum < rhsNum {
-			return -1
-		} else if lhsNum > rhsNum {
-			return 1
-		}
-		return 0
 	} else if (lhsTag == "!!int" || lhsTag == "!!float") && (rhsTag == "!!int" || rhsTag == "!!float") {
-		lhsNum, err := strconv.ParseFloat(lhs.Value, 64)
-		if err != nil {
-			panic(err)
+		if lhsTag == "!!int" && rhsTag == "!!int" {
+			_, lhsNum, lhsErr := parseInt64(lhs.Value)
+			_, rhsNum, rhsErr := parseInt64(rhs.Value)
+			if lhsErr == nil && rhsErr == nil {
+				if lhsNum < rhsNum {
+					return -1
+				} else if lhsNum > rhsNum {
+					return 1
+				}
+				return 0
+			}
 		}
-		rhsNum, err := strconv.ParseFloat(rhs.Value, 64)
-		if err != nil {
-			panic(err)
+		lhsNum, lhsErr := sortableFloat(lhs, lhsTag)
+		rhsNum, rhsErr := sortableFloat(rhs, rhsTag)
+		if lhsErr != nil || rhsErr != nil {
+			// not a number we can read: sort by string instead (as for unparsable dates)
+			return strings.Compare(lhs.Value, rhs.Value)
 		}
 		if lhsNum == rhsNum {
 			return 0
